@@ -2,7 +2,8 @@
    case:  ns <fixed 0|1> <nsess> {<nstart>,<maxrt>,<est0 0|1>,<udp 0|1>}*nsess <op>*
    ops :  S<sid>,<c|n>,<mid>,<tok>   coap_send of a CON/NON
           A<sid>,<mid>  R<sid>,<mid>  ACK / RST arrives        T<sid>,<mid>  timer of that node fires
-          P<sid>,<tok>  separate NON response with the token    U<sid>  session connected
+          P<sid>,<tok>[,<peer mid>]  separate NON response with the token (the peer's own message
+                        id is irrelevant to the model)                   U<sid>  session connected
           F<sid>,<reason>  coap_session_disconnected
    result: one group per op "<i>:<items>", items joined by ',':
           A | X (coap_send returned mid | COAP_INVALID_MID), T<c|n><mid>.<tok> (datagram),
@@ -28,7 +29,7 @@ let parse_op s : int * ns_ev =
   | 'A', [sid; mid] -> (int_of_string sid, NsAck (zi mid))
   | 'R', [sid; mid] -> (int_of_string sid, NsRst (zi mid))
   | 'T', [sid; mid] -> (int_of_string sid, NsTick (zi mid))
-  | 'P', [sid; tok] -> (int_of_string sid, NsSep (zi tok))
+  | 'P', [sid; tok] | 'P', [sid; tok; _] -> (int_of_string sid, NsSep (zi tok))
   | 'U', [sid] -> (int_of_string sid, NsUp)
   | 'F', [sid; r] -> (int_of_string sid, NsFail (zi r))
   | _ -> failwith ("ns op " ^ s)
